@@ -468,3 +468,41 @@ M("c18_small_reads_pending_after_wait", ["C18"],
   ("lomond/session.py", "                    data = self._recv(max_bytes)", "                    data = self._recv(4096)"),
   ("lomond/selectors.py", "        if hasattr(self._socket, 'pending') and self._socket.pending():\n            return True, self._socket.pending()\n        readable = self.wait_readable(timeout=timeout)\n        return readable, max_bytes",
    "        readable = self.wait_readable(timeout=timeout)\n        if not readable and hasattr(self._socket, 'pending') and self._socket.pending():\n            return True, self._socket.pending()\n        return readable, max_bytes"))
+
+# ---- C11 -----------------------------------------------------------------
+M("c11_no_write_lock", ["C11"],
+  ("lomond/session.py", "    def write(self, data, closing=False):\n        \"\"\"Send raw data.\"\"\"\n        with self._lock:",
+   "    def write(self, data, closing=False):\n        \"\"\"Send raw data.\"\"\"\n        if True:"))
+M("c11_revert_fix_compress_lock", ["C11"],
+  ("lomond/websocket.py", "            with self.state.compress_lock:\n                _payload = self.state.compression.compress(payload)\n                self.session.send_compressed(Opcode.TEXT, _payload)",
+   "            if True:\n                _payload = self.state.compression.compress(payload)\n                self.session.send_compressed(Opcode.TEXT, _payload)"))
+M("c11_compress_lock_binary_only_missing", ["C11"],
+  ("lomond/websocket.py", "            with self.state.compress_lock:\n                _payload = self.state.compression.compress(data)\n                self.session.send_compressed(Opcode.BINARY, _payload)",
+   "            if True:\n                _payload = self.state.compression.compress(data)\n                self.session.send_compressed(Opcode.BINARY, _payload)"))
+M("c11_compress_locked_write_unlocked", ["C11"],
+  ("lomond/websocket.py", "            with self.state.compress_lock:\n                _payload = self.state.compression.compress(payload)\n                self.session.send_compressed(Opcode.TEXT, _payload)",
+   "            with self.state.compress_lock:\n                _payload = self.state.compression.compress(payload)\n            self.session.send_compressed(Opcode.TEXT, _payload)"))
+M("c11_shared_frame_buffer", ["C11"],
+  ("lomond/session.py", "        frame = Frame(opcode, payload=bytearray(data))\n        self.write(frame.to_bytes(), closing=frame.is_close)",
+   "        buf = self.__dict__.setdefault('_fb', bytearray())\n        buf[:] = data\n        frame = Frame(opcode, payload=buf)\n        self.write(frame.to_bytes(), closing=frame.is_close)"))
+M("c11_lock_released_between_header_and_body", ["C11"],
+  ("lomond/session.py", "                self._sock.sendall(data)\n            except socket.error as error:\n                log.debug('WebSocket send error; %s', error)",
+   "                self._sock.sendall(data[:2])\n                self._lock.release()\n                self._lock.acquire()\n                self._sock.sendall(data[2:])\n            except socket.error as error:\n                log.debug('WebSocket send error; %s', error)"))
+M("c11_rlock_instead_of_lock", ["C11", "C12"],
+  ("lomond/session.py", "        self._lock = threading.Lock()", "        self._lock = threading.RLock()"),
+  equivalent=True)
+
+# ---- C12 -----------------------------------------------------------------
+M("c12_revert_fix_flag_in_lock", ["C12"],
+  ("lomond/session.py", "            if closing:\n", "            if False:\n"))
+M("c12_revert_fix_state_order", ["C12"],
+  ("lomond/websocket.py", "            self.state.closed = True\n            self.state.closing = False\n", "            self.state.closing = False\n            self.state.closed = True\n"))
+M("c12_revert_fix_check_order", ["C12"],
+  ("lomond/session.py", "            if self.websocket.is_closing:\n                log.debug('WebSocket closing; data not sent')\n                raise errors.WebSocketClosing('data not sent')\n            if self.websocket.is_closed:\n                log.debug('WebSocket closed; data not sent')\n                raise errors.WebSocketClosed('data not sent')\n",
+   "            if self.websocket.is_closed:\n                log.debug('WebSocket closed; data not sent')\n                raise errors.WebSocketClosed('data not sent')\n            if self.websocket.is_closing:\n                log.debug('WebSocket closing; data not sent')\n                raise errors.WebSocketClosing('data not sent')\n"))
+M("c12_flag_before_send_unlocked", ["C08"],
+  ("lomond/websocket.py", "                self._send_close(code, reason)\n                self.state.closing = True", "                self.state.closing = True\n                self._send_close(code, reason)"))
+M("c12_state_checked_outside_lock", ["C12"],
+  ("lomond/session.py", "        with self._lock:\n            if self._sock is None:\n                log.debug('WebSocket unavailable; data not sent')\n                raise errors.WebSocketUnavailable('not connected')",
+   "        if self.websocket.is_closing:\n            raise errors.WebSocketClosing('data not sent')\n        with self._lock:\n            if self._sock is None:\n                log.debug('WebSocket unavailable; data not sent')\n                raise errors.WebSocketUnavailable('not connected')"),
+  ("lomond/session.py", "            # Check closing before closed, the event loop moves the\n            # state from closing to closed without taking the lock\n            if self.websocket.is_closing:\n                log.debug('WebSocket closing; data not sent')\n                raise errors.WebSocketClosing('data not sent')\n", ""))
